@@ -11,6 +11,8 @@ From Bac Require Import CodecFacts.
 From Bac Require Import CodecWf.
 From Bac Require Import CodecTotal.
 From Bac Require Import SchemaTables.
+From Bac Require Import ArrayObj.
+From Bac Require Import ArrayObjFacts.
 From BacGen Require Import Schemas.
 Open Scope N_scope.
 
@@ -254,3 +256,87 @@ Example C03_list_keeps_duplicates :
     [mkTag 0 4 4 [0;0;0;0]; mkTag 0 4 4 [128;0;0;0]; mkTag 0 4 4 [0;0;0;0]]) = Some 3%nat.
 Proof. split; vm_compute; reflexivity. Qed.
 
+
+(* ---------- the ArrayOf OBJECT (wave 6): self.value = [count, e1, ..., en] ---------- *)
+(* the representation invariant arr_ok (cell 0 = the number of element cells, every other cell an element) is
+   established by the constructor — and a constructor given a list holds exactly that list — ... *)
+Theorem C03_array_new_invariant : forall fixed dflt init a, arr_new fixed dflt init = Ok a ->
+  arr_ok a /\ (forall n, fixed = Some n -> count_of a = Ok n) /\ (forall vs, init = Some vs -> a = arr_of vs).
+Proof. exact arr_new_ok. Qed.
+Print Assumptions C03_array_new_invariant.
+
+(* ... and kept by every accepted call of append / __setitem__(0, n) (fix_length) / __setitem__(i, v) /
+   __delitem__ / decode, for every subtype, fixed or free length, any arguments (a refused call leaves the
+   object alone: arr_run), so after ANY history the count equals the number of elements the iterator, the
+   encoder and Any.cast_out see *)
+Theorem C03_array_invariant : forall s fixed dflt ops a, arr_ok a ->
+  let a' := snd (arr_run s fixed dflt ops a) in
+  arr_ok a' /\ exists vs, arr_items a' = Ok vs /\ count_of a' = Ok (lenN vs) /\ a' = arr_of vs.
+Proof. intros s fixed dflt ops a H. pose proof (arr_run_ok s fixed dflt ops a H) as K. split; [exact K|exact (arr_ok_items _ K)]. Qed.
+Print Assumptions C03_array_invariant.
+
+Theorem C03_array_fixed_length : forall s n dflt op a a', arr_ok a -> count_of a = Ok n ->
+  arr_step s (Some n) dflt op a = Ok a' -> count_of a' = Ok n.
+Proof. exact arr_step_fixed. Qed.
+Print Assumptions C03_array_fixed_length.
+
+(* Any.cast_out(ArrayOf class), written on the object (decode into a helper, answer helper.value[1:]), IS
+   Codec.cast_out at TArrayOf, for ARBITRARY tags: the answer is the element list, the count cell never leaks *)
+Theorem C03_array_cast_out_is_elements : forall s fixed ts,
+  cast_out (TArrayOf s fixed) ts = do vs <- arr_cast_out s fixed ts; Ok (VList vs).
+Proof. exact arr_cast_out_tie. Qed.
+Print Assumptions C03_array_cast_out_is_elements.
+
+(* whole-array round trip on the object: the decoded object is the encoded one, count cell included, and
+   Any.cast_in / cast_out gives back exactly the elements (any length, 0 included) *)
+Theorem C03_array_object_roundtrip : forall s fixed vs ts rest,
+  supported (TArrayOf s fixed) = true -> wf_ty (TArrayOf s fixed) = true ->
+  has_ty (TArrayOf s fixed) (VList vs) -> arr_encode s (arr_of vs) = Ok ts -> rest_ok [PAny] rest ->
+  arr_decode s fixed (ts ++ rest) = Ok (arr_of vs, rest) /\ arr_cast_out s fixed ts = Ok vs.
+Proof. exact arr_obj_roundtrip. Qed.
+Print Assumptions C03_array_object_roundtrip.
+
+(* item access (ReadProperty / WriteProperty with propertyArrayIndex): index 0 travels as the count, an
+   Unsigned (bound: the count fits 32 bits, Unsigned.encode packs '>L'), and reads back as the count ... *)
+Theorem C03_array_item_roundtrip_count : forall s dflt vs, lenN vs < 4294967296 ->
+  exists t, arr_encode_item s 0 (arr_of vs) = Ok [t] /\
+            forall rest, arr_decode_item s dflt 0 ([t] ++ rest) = Ok (CCount (lenN vs), rest).
+Proof. exact arr_item_roundtrip_count. Qed.
+Print Assumptions C03_array_item_roundtrip_count.
+
+(* ... index i >= 1 travels as the encoding of the i-th element and reads back as that element *)
+Theorem C03_array_item_roundtrip_elem : forall s dflt vs i v ts rest,
+  supported s = true -> wf_ty s = true -> has_ty s v ->
+  1 <= i -> nth_error vs (N.to_nat i - 1) = Some v ->
+  arr_encode_item s i (arr_of vs) = Ok ts -> rest_ok (avoid s) rest ->
+  encode s v = Ok ts /\ arr_decode_item s dflt i (ts ++ rest) = Ok (CItem v, rest).
+Proof. exact arr_item_roundtrip_elem. Qed.
+Print Assumptions C03_array_item_roundtrip_elem.
+
+(* non-vacuity: ArrayOf(Unsigned)([10,20,30]); append 40; a[0] = 2 (shrink); a[0] = 4 (grow with the default 0);
+   a[1] = 7; del a[2]; a refused a[9] = 7 in between *)
+Definition u8 (n : N) : val := VAtom (mkTag 0 2 1 [n]).
+Example C03_array_history :
+  arr_new None (u8 0) (Some [u8 10; u8 20; u8 30]) = Ok (arr_of [u8 10; u8 20; u8 30]) /\
+  arr_run (TAtom 2) None (u8 0)
+    [OAppend (u8 40); OSetLen 2; OSet 9 (u8 7); OSetLen 4; OSet 1 (u8 7); ODel 2] (arr_of [u8 10; u8 20; u8 30])
+  = ([0; 0; err_code IndexErr; 0; 0; 0]%Z, arr_of [u8 7; u8 0; u8 0]) /\
+  arr_new (Some 3) (u8 0) None = Ok (arr_of [u8 0; u8 0; u8 0]) /\
+  arr_step (TAtom 2) (Some 3) (u8 0) (OAppend (u8 1)) (arr_of [u8 0; u8 0; u8 0]) = Err TypeErr.
+Proof. repeat split; vm_compute; reflexivity. Qed.
+
+Example C03_array_object_instance :   (* the theorems applied: three Unsigned, then per item *)
+  arr_cast_out (TAtom 2) None [mkTag 0 2 1 [10]; mkTag 0 2 1 [20]; mkTag 0 2 1 [30]] = Ok [u8 10; u8 20; u8 30] /\
+  arr_encode_item (TAtom 2) 0 (arr_of [u8 10; u8 20; u8 30]) = Ok [mkTag 0 2 1 [3]] /\
+  arr_decode_item (TAtom 2) (u8 0) 2 ([mkTag 0 2 1 [20]] ++ []) = Ok (CItem (u8 20), []).
+Proof.
+  assert (L : forall n, n < 256 -> n <> 0 -> leaf_ok 2 (mkTag 0 2 1 [n])).
+  { intros n H0 H1. repeat split. }
+  split; [|split].
+  - apply (C03_array_object_roundtrip (TAtom 2) None [u8 10; u8 20; u8 30] _ []); try (vm_compute; reflexivity); try exact I.
+    cbn. split; [|exact I]. repeat constructor.
+  - vm_compute. reflexivity.
+  - apply (C03_array_item_roundtrip_elem (TAtom 2) (u8 0) [u8 10; u8 20; u8 30] 2 (u8 20));
+      try (vm_compute; reflexivity); try exact I; try lia.
+    cbn. repeat split.
+Qed.
